@@ -43,7 +43,7 @@ ASSUMPTIONS = [
     "(since fix a02f82b the former hypothesis db_stable is enforced by Executor._flag_inputs_not_final and proved)",
 ]
 
-from .p_c03_sigs import SIG_OTHER, SIG_RECONF, SIG_RERUN, SIG_VALIDATE_LOOP
+from .p_c03_sigs import SIG_OTHER, SIG_RECONF, SIG_RERUN, SIG_SKIP_WINDOW, SIG_VALIDATE_LOOP
 
 
 def generate(ctx):
@@ -586,6 +586,16 @@ def checking_oracle(case, r, fails):
                           f"stored output digest (out_same={out_same}, outs_exist={outs_exist})", ev))
         if not r["has_hash"]:
             fails.append(("oracle:skip:succeeded-without-hash", "SUCCEEDED by a skip but no stored hash", ev))
+        # at the moment the skip is recorded: is the record of every input still the one that was hashed?
+        end = {p: (st, code) for p, st, code, dyn in r["final_inputs"]}
+        moved = [p for p, st, dyn in chk["inputs"]
+                 if end.get(p, (None, None))[0] not in (F_BUILT, F_CONFIRMED) or end[p][1] != case.code(chk["inp_rec"][p])]
+        if moved:
+            ev["re_recorded"] = moved
+            fails.append((SIG_SKIP_WINDOW,
+                          f"the step was recorded SUCCEEDED by a skip although the record of its input(s) {moved} was "
+                          f"replaced (or withdrawn) while it was being checked: the stored hash describes the old "
+                          f"content, the database and the disk the new one; nothing runs the step again", ev))
         return
     if cancelled:
         if state != S_FAILED or r["has_hash"]:
@@ -738,17 +748,72 @@ WITNESS_SKIP = {
 }
 
 
+# the skip-path analogue of WITNESS_RERUN: the producer of f02.txt is executed again while
+# try_skip_job hashes the outputs of c
+WITNESS_SKIP_WINDOW = {
+    "files": {"f01.txt": "conf", "f02.txt": "built"}, "initial": ["f01.txt", "f02.txt"], "static_owner": {}, "cap": 2,
+    "keep_going": False, "explain": True,
+    "runs": [dict(_IDLE), dict(_IDLE, before=[["repend"]],
+                              chk_during=[["pstart", "f02.txt"], ["tick", 1], ["pfinish", "f02.txt", True, 7]]),
+             dict(_IDLE)],
+}
+
+
+def skip_window_witness(ctx, fails):
+    """Replays WITNESS_SKIP_WINDOW on the real Executor and the real serve() scenario."""
+    from .c03_driver import run_case
+    case = asyncio.run(asyncio.wait_for(run_case(WITNESS_SKIP_WINDOW), 120))
+    ctx.case(("skip-window-witness",), nontrivial=True)
+    fs = []
+    oracle_case(ctx, case, fs)
+    api = [f for f in fs if f[0] == SIG_SKIP_WINDOW]
+    other = [f for f in fs if f[0] != SIG_SKIP_WINDOW]
+    for sig, detail, wit in other:
+        fails.append((sig, detail, {"spec": WITNESS_SKIP_WINDOW, "evidence": json.loads(json.dumps(wit, default=str))}))
+    from .c03_sys import skip_window_system
+    try:
+        res = asyncio.run(asyncio.wait_for(skip_window_system(), 120))
+    except asyncio.TimeoutError:
+        res = {"note": "TIMEOUT (the interleaving did not occur)"}
+    stale = res.get("rc2") == 0 and res.get("c_state2") == S_SUCCEEDED and res.get("o2") is not None \
+        and res.get("f2") is not None and res["f2"] not in res["o2"]
+    ctx.stats["skip_window"] = {"api_level_reproduced": bool(api), "serve_level_stale_output": bool(stale),
+                                "serve": {k: res.get(k) for k in ("rc1", "rc2", "rc3", "f2", "o2", "o3", "c_state2")}}
+    ctx.sample({"skip-window-system": res})
+    if api or stale:
+        ctx.notes.append("C03 open finding C03-skip-window: a step is recorded SUCCEEDED by a skip although the record of "
+                         "an input was replaced while it was being checked (API level reproduced: "
+                         f"{bool(api)}; real serve(): rc {res.get('rc2')}, f.txt={res.get('f2')!r}, o.txt={res.get('o2')!r}, "
+                         f"next build re-runs nothing: o.txt={res.get('o3')!r}). See findings.d/C03-skip-window.json.")
+    if stale:
+        fails.append((SIG_SKIP_WINDOW,
+                      f"real serve(): p was executed again and rewrote f.txt to {res.get('f2')!r} while c was being "
+                      f"checked; c was then SKIPPED: build return code {res.get('rc2')}, c SUCCEEDED, o.txt = "
+                      f"{res.get('o2')!r} (built from the old f.txt); the next build re-runs nothing (o.txt = {res.get('o3')!r}); "
+                      f"events {res.get('events')}", {"spec": WITNESS_SKIP_WINDOW, "evidence": {"system": res}}))
+    elif api:
+        sig, detail, wit = api[0]
+        fails.append((sig, detail, {"spec": WITNESS_SKIP_WINDOW, "evidence": json.loads(json.dumps(wit, default=str))}))
+
+
 def validate_loop_witness(ctx, fails):
-    """Replays WITNESS_VALIDATE_LOOP on the real Scheduler/Executor and records whether the same
-    VALIDATE_DYNAMIC job is handed out again and again."""
-    import os
+    """Regression of finding D36 (fixed by d760e3e): replays WITNESS_VALIDATE_LOOP on the real
+    Scheduler/Executor and the two-build scenario on the real serve(); the same VALIDATE_DYNAMIC job
+    must not be handed out again."""
     from .c03_driver import run_case
     case = asyncio.run(asyncio.wait_for(run_case(WITNESS_VALIDATE_LOOP), 120))
     rs = case.runs
     first_ok = rs[0].get("started") and rs[0]["state"] == S_SUCCEEDED
-    loops = [r for r in rs[1:] if r.get("kind") == 3 and r["state"] == S_PENDING and r["has_hash"] and not r["deferred"]]
+    validated = len(rs) > 1 and rs[1].get("kind") == 3 and rs[1]["state"] == S_PENDING and rs[1]["has_hash"]
+    again = [r for r in rs[2:] if r.get("dispatched")]
     ctx.case(("validate-loop-witness",), nontrivial=True)
-    ctx.stats["validate_loop_redispatches_api"] = len(loops) if first_ok else 0
+    ctx.stats["validate_loop_api"] = {"first_run_succeeded": bool(first_ok), "validated_unchanged": bool(validated),
+                                      "deferred_after": bool(validated and rs[1]["deferred"]),
+                                      "dispatched_again": len(again)}
+    if not (first_ok and validated):
+        fails.append(("oracle:validate:witness-shape", "WITNESS_VALIDATE_LOOP no longer reaches the 'digest unchanged' "
+                      f"branch of validate_dynamic_job: runs {[(r.get('kind'), r.get('state')) for r in rs]}",
+                      {"spec": WITNESS_VALIDATE_LOOP, "evidence": {}}))
     from .c03_sys import validate_loop_system
     try:
         res = asyncio.run(asyncio.wait_for(validate_loop_system(), 90))
@@ -756,18 +821,12 @@ def validate_loop_witness(ctx, fails):
         res = {"build2": "TIMEOUT"}
     ctx.stats["validate_loop_system"] = {k: res.get(k) for k in ("build1_rc", "build2", "nvalidate")}
     ctx.sample({"validate-loop-system": res})
-    looping = (first_ok and len(loops) == 3) or str(res.get("build2", "")).startswith("LOOP")
-    if looping:
-        ctx.notes.append("C03 observation (not a C03 violation; C10 termination): validate_dynamic_job 'digest unchanged' "
-                         "leaves the step PENDING, not deferred, with its hash; the same VALIDATE_DYNAMIC job is dispatched "
-                         f"again and again (API level: {len(loops)} of 3 re-dispatches; real serve(): {res.get('build2')}). "
-                         "See findings.d/C03-validate-loop.json.")
-        if os.environ.get("VERIF_C03_REPORT_LOOP") == "1":
-            fails.append((SIG_VALIDATE_LOOP,
-                          "validate_dynamic_job puts a step whose input digest is unchanged back to PENDING without "
-                          "`deferred`; the scheduler hands out the same VALIDATE_DYNAMIC job for ever "
-                          f"(real serve(): {res.get('build2')})",
-                          {"spec": WITNESS_VALIDATE_LOOP, "evidence": {"system": res}}))
+    if again or str(res.get("build2", "")).startswith(("LOOP", "TIMEOUT")):
+        fails.append((SIG_VALIDATE_LOOP,
+                      "regression of D36: validate_dynamic_job puts a step whose input digest is unchanged back to "
+                      "PENDING without `deferred`; the scheduler hands out the same VALIDATE_DYNAMIC job again "
+                      f"(API level: dispatched again {len(again)} time(s); real serve(): build 2 = {res.get('build2')})",
+                      {"spec": WITNESS_VALIDATE_LOOP, "evidence": {"system": res}}))
 
 
 def report(ctx, fails):
@@ -809,6 +868,7 @@ def fixed_witnesses(ctx):
         fails.append(("oracle:skip:fixed-witness", f"WITNESS_SKIP: expected (kind, state, has_hash) {want}, observed {got}",
                       {"spec": WITNESS_SKIP, "evidence": {"runs": got}}))
     validate_loop_witness(ctx, fails)
+    skip_window_witness(ctx, fails)
     return fails
 
 
